@@ -14,10 +14,10 @@ type ssaInstr = ssa.Instruction
 // bare loop counter (not a field such as level.newest): the call sits in a loop over x.
 func inRangeLoop(in ssa.Instruction) bool {
 	ci, ok := in.(ssa.CallInstruction)
-	if !ok || len(ci.Common().Args) == 0 {
+	if !ok || len(BaselineArgs(ci.Common())) == 0 {
 		return false
 	}
-	a := ci.Common().Args[len(ci.Common().Args)-1]
+	a := BaselineArgs(ci.Common())[len(BaselineArgs(ci.Common()))-1]
 	ld, ok := a.(*ssa.UnOp)
 	if !ok {
 		return false
@@ -88,4 +88,18 @@ func loopVar(v ssa.Value) bool {
 		})
 	}
 	return found
+}
+
+// upperBounds returns values that are each >= v by construction: v itself and,
+// when v is min(a, b, ...), the upper bounds of every argument.
+func upperBounds(v ssa.Value) []ssa.Value {
+	out := []ssa.Value{v}
+	if call, ok := v.(*ssa.Call); ok {
+		if b, isB := call.Call.Value.(*ssa.Builtin); isB && b.Name() == "min" {
+			for _, a := range BaselineArgs(&call.Call) {
+				out = append(out, upperBounds(a)...)
+			}
+		}
+	}
+	return out
 }
